@@ -10,5 +10,11 @@ import Csproto.Bridge.Templates
 #print axioms Csproto.C05.negative_zero_is_emitted
 #print axioms Csproto.C05.scalar_record_shape
 #print axioms Csproto.C05.nested_record_shape
+#print axioms Csproto.C05.marshal_records
+#print axioms Csproto.C05.records_decode_to_message
+#print axioms Csproto.C05.presence_preserved
 #print axioms Csproto.Bridge.Templates.marshal_dispatch_total
 #print axioms Csproto.Bridge.Templates.oneof_arms_total
+#print axioms Csproto.Gen.msg_fold
+#print axioms Csproto.Gen.opsFields_recs
+#print axioms Csproto.Gen.field_fold
